@@ -584,13 +584,15 @@ theorem exec_good : ∀ (f : Nat), IH sc f := by
           have := hI1.names.fresh i w1.c.ctr hi (by simp [nameF]; rw [hn])
           omega
         have hA := nfle_alloc (cl := true) hI1' hfree
+        have hA1 : NFle w1.c (alloc { w1.c with ctr := w1.c.ctr + 1 } { base := (w1.c.objs ob).name.base, num := some w1.c.ctr } true).1 :=
+          (nfle_ctr w1.c).trans hA.1
         have halloc := alloc_inv (cl := true) hI1' hfree (by intro k hk; simp at hk; subst hk; simp)
-        refine step_good sc ih halloc ⟨hA.2, by intro y h; cases h⟩ (fun g hgg => hA.1 g (hwf1 g hgg)) hg1 (hle1.trans hA.1) ?_
+        refine step_good sc ih halloc ⟨hA.2, by intro y h; cases h⟩ (fun g hgg => hA1 g (hwf1 g hgg)) hg1 (hle1.trans hA1) ?_
         intro w2 v2 hI2 hle2 hwf2 hg2 hv2
-        have hcg : WorldWf { w2 with cg := w.cg } := fun g hgg => hle2 g (hA.1 g (hle1 g (hwf g hgg)))
+        have hcg : WorldWf { w2 with cg := w.cg } := fun g hgg => hle2 g (hA1 g (hle1 g (hwf g hgg)))
         split
-        · exact good_val ((hle1.trans hA.1).trans hle2) hg2 hcg (by simp)
-        · exact good_val ((hle1.trans hA.1).trans hle2) hg2 hcg (fun x hx => by cases hx; exact hle2 _ hA.2)
+        · exact good_val ((hle1.trans hA1).trans hle2) hg2 hcg (by simp)
+        · exact good_val ((hle1.trans hA1).trans hle2) hg2 hcg (fun x hx => by cases hx; exact hle2 _ hA.2)
     | move item dest =>
       simp only [exec]
       obtain ⟨hit, hdt⟩ := ht
